@@ -42,7 +42,7 @@ fn run(ctx: &Ctx) {
     ctx.run_tape("roundtrip", roundtrip, ctx.pick(240_000, 1_000_000), 700);
     ctx.run_tape("invalid", invalid, ctx.pick(144_000, 500_000), 500);
     ctx.run_enum("types", types, true, "all 256 handshake type codes x 3 body shapes (empty, 5 bytes, a valid body for that code)", (0..768u32).map(|i| vec![(i / 3) as u8, (i % 3) as u8]));
-    ctx.run_tape("large", large, ctx.pick(24, 600), 64);
+    ctx.run_tape("large", large, ctx.pick(48, 600), 64);
     ctx.run_tape("huge", huge, ctx.pick(2, 48), 64);
     ctx.run_tape("body_direct", body_direct, ctx.pick(60_000, 300_000), 200);
 }
@@ -208,6 +208,17 @@ fn t_small(t: &mut Tape) -> usize {
 
 /// bodies around and beyond 16 bits
 fn large(t: &mut Tape, obs: &mut Obs) -> R {
+    if t.chance(64) {
+        // certificate chains whose LIST length is a round number (low byte zero, 64 KiB and more) behind a short first certificate:
+        // the three length bytes then also read as other layouts of the same message (a one-byte context, an empty list)
+        let total = t.pick(&[0x01_0000usize, 0x01_0100, 0x01_ab00, 0x02_0000, 0x00_ff00, 0x01_0001]);
+        let k = t.pick(&[0usize, 1, 100, 255, 256]);
+        let rest = total - 6 - k;
+        let h = MHs::Certificate { chain: vec![t.bytes(k), vec![0x30; rest]] };
+        obs.class("Certificate:round-list-length");
+        let tail = t.small_blob(8);
+        return check_roundtrip(&h, &tail, obs);
+    }
     let n = match t.below(4) {
         0 => 65535,
         1 => 65536,
